@@ -99,14 +99,20 @@ def edit_pair(draw, rest, b, vals):
 @st.composite
 def cases(draw, path):
     sig = draw(S.signatures())
-    kind = draw(st.sampled_from(['function', 'function', 'function', 'method']))
+    kind = draw(st.sampled_from(['function', 'function', 'function', 'method', 'partial']))
+    if kind == 'partial' and not sig['varkw']:
+        kind = 'function'
     vals = st.one_of(V.ints(), V.ints(), st.sampled_from([['s', 'a'], ['s', 'b'], ['n'], ['f', '0.5'], ['t', [['i', 1]]]]))
     b1 = draw(S.bindings(sig, vals))
     b2, ek = draw(edit_pair(sig, b1, vals))
     spec = draw(ignore_specs(sig, kind))
     km = draw(st.sampled_from(KMS))
     module = 'safe' if (km['cls'] == 'keymap' and not km['flat']) else draw(st.sampled_from(['std', 'safe']))
-    return {'sig': sig, 'kind': kind, 'b1': b1, 'b2': b2, 'edits': ek, 'ignore': spec, 'form1': draw(st.integers(0, 255)),
+    pkw = []
+    if kind == 'partial':
+        # a functools.partial that presets extra (**kw) keywords: under '**' they are ignored like the caller's own extra keywords
+        pkw = [[n, draw(vals)] for n in draw(st.lists(st.sampled_from(S.XKW[:3]), unique=True, min_size=1, max_size=2))]
+    return {'sig': sig, 'kind': kind, 'pkw': pkw, 'b1': b1, 'b2': b2, 'edits': ek, 'ignore': spec, 'form1': draw(st.integers(0, 255)),
             'form2': draw(st.integers(0, 255)), 'keymap': km, 'path': path, 'module': module,
             'algo': draw(st.sampled_from(['inf', 'lru', 'lfu', 'mru', 'rr'] + H.DISPATCHED))}
 
@@ -266,8 +272,11 @@ def run_case(case):
     else:
         target = S.make_plain(sig, body)
         prefix = ()
+        if kind == 'partial':
+            import functools
+            target = functools.partial(target, **dict((n, V.build(v)) for n, v in case.get('pkw', [])))
     spec = case['ignore']
-    sel = selector(sig, kind, spec)
+    sel = selector(sig, 'function' if kind == 'partial' else kind, spec)
     classes = ['path:' + case['path'], 'kind:' + kind, 'style:' + spec['style'], 'keymap:%s%s' % (case['keymap']['cls'], '' if case['keymap']['flat'] else '-nonflat')]
     if kind == 'method' and 'self' in spec['items']:
         classes.append('self_ignored')
